@@ -89,8 +89,10 @@ def plan_wrap(pid, tier, seed):
                          args=["--tier", tier, "--seed", str(seed), "--n", n8]))
         gens.append(dict(name="wrapwide_" + prof, profile=prof, bin="wrap", dom="big", per_shard=4000,
                          args=["--big", "--tier", tier, "--seed", str(seed), "--n", nw]))
+    gens.append(dict(name="parse_wrapping", profile="unchecked", bin="text", dom="big", per_shard=1500,
+                     args=["--topic", "ties,dec,radix,malformed", "--tier", "quick", "--seed", str(seed)]))
     return dict(
-        bins=["wrap"], profiles=["unchecked", "checked"], gens=gens, designs=[],
+        bins=["wrap", "text"], profiles=["unchecked", "checked"], gens=gens, designs=[],
         nontrivial=lambda line: line.startswith('{"k":"w",') and '"r":[0,0]' not in line and '"r":[0,[0]]' not in line,
         rule="random programs of 14 steps over four registers of Wrapping<F> (3 loads from the boundary lattice, then +,-,*,/,%, "
              "&,|,^, div/rem_euclid, *,/,% and Euclidean ops by an integer, << and >> with all 12 amount types and negative / huge "
@@ -100,7 +102,7 @@ def plan_wrap(pid, tier, seed):
              "with a non-zero result; distinct by event content.",
         assumptions=["TLC, BigInt.tla and the harness's JSON encoders are trusted",
                      "int()/frac() on layouts without integer bits are not pinned down by the property and only required not to panic",
-                     "Wrapping parsing (from_str*) is covered under C08's corpus"],
+                     "Wrapping<F> parsing (FromStr, from_str_binary/octal/hex) is judged on C08's literal corpus against Wrap(ParseR)"],
     )
 
 
@@ -172,7 +174,39 @@ def plan_profile(pid, tier, seed):
     )
 
 
+def plan_text(pid, tier, seed):
+    topics = {"C08": "tokens,ties,dec,radix,malformed", "C09": "fmt"}[pid]
+    gens = [dict(name="text", profile="unchecked", bin="text", dom="big", per_shard=2500 if pid == "C09" else 1500,
+                 args=["--topic", topics, "--tier", tier, "--seed", str(seed)])]
+    rules = {
+        "C08": "106 layouts x radix 10/2/8/16: (a) tokeniser: every string of length <= 3 (thorough 5) over the alphabet "
+               "{+,-,.,0,1,7,9,a,x,space} on two layouts, a list of 70 malformed / edge strings (empty, signs only, two points, "
+               "misplaced signs, non-ASCII digits, control characters, exponents) on every layout; (b) decimal tie literals: the "
+               "exact expansion of (2k+1)/2^(f+1) for boundary and random k, its proper prefixes, +-1 in the last place, the tie "
+               "followed by 0..01 / 000 / 9999, with sign; (c) random decimals with 0..60 (occasionally 200) fractional digits and "
+               "integer parts at the range edge; (d) exact binary/octal/hex expansions of lattice values with half-digit tails and "
+               "integer parts at/over the overflow edge; (e) 10 000-digit literals. from_str*, saturating_, wrapping_, overflowing_ "
+               "forms judged against ParseR = RNE of the exact rational of the literal (tla/sem/SemText.tla).",
+        "C09": "every value of every 8-bit layout and lattice+random values of 88 wider layouts x Display/Debug/Binary/Octal/"
+               "LowerHex/UpperHex x precisions {none,0,1,3,8,20,(200)} ({none,1,3} for the radix-2^k traits) x 3 of 14 flag templates "
+               "(width, fill, <^> alignment, +, #, 0) per event; the unflagged body must be the correctly rounded expansion at the "
+               "digits shown (and parse back exactly when the precision is automatic, also through the real FromStr); flagged "
+               "outputs must be pad(sign ++ prefix ++ body).",
+    }
+    return dict(
+        bins=["text"], profiles=["unchecked"], gens=gens, designs=[],
+        nontrivial=lambda line: '"a":[0],' not in line and '"s":[]' not in line,
+        rule=rules[pid] + " Non-trivial: value / literal not empty or zero; distinct by event content.",
+        assumptions=["TLC, BigInt.tla and the harness's JSON encoders are trusted",
+                     "format strings are compile-time in Rust: 14 flag templates x 6 traits x {precision, none} are instantiated; width and "
+                     "precision are run-time arguments",
+                     "the default alignment is not constrained (any split of the padding is accepted)"],
+    )
+
+
 PLANS = {
+    "C08": lambda t, s: plan_text("C08", t, s),
+    "C09": lambda t, s: plan_text("C09", t, s),
     "C11": lambda t, s: plan_profile("C11", t, s),
     "C18": lambda t, s: plan_wrap("C18", t, s),
     "C03": lambda t, s: plan_conv("C03", t, s),
